@@ -424,6 +424,9 @@ type sqlEval struct {
 	row    *sqlRow
 	params []any
 	bad    bool // something the evaluator does not model
+	// a Boolean expression where a value is expected, or a constant where a condition is
+	// expected: PostgreSQL reads the text but the predicate has no meaning
+	illTyped bool
 }
 
 func (ev *sqlEval) scalar(n *sqNode) rowVal {
@@ -453,6 +456,8 @@ func (ev *sqlEval) scalar(n *sqNode) rowVal {
 		case string:
 			return rowVal{s: p}
 		}
+	case qAnd, qOr, qNot, qCmp, qBetween, qIn, qSimilar, qRegex:
+		ev.illTyped = true
 	}
 	ev.bad = true
 	return rowVal{}
@@ -563,6 +568,8 @@ func (ev *sqlEval) eval(n *sqNode) bool {
 			return false
 		}
 		return similarTo(x.s, p.s, &ev.bad)
+	case qStr, qNum:
+		ev.illTyped = true // a constant where a condition is expected
 	}
 	ev.bad = true
 	return false
